@@ -75,6 +75,9 @@ YamlVerdict(rec) ==
       o == rec.obs
   IN IF rec.env.err.k # "syntax" THEN [v |-> "env_disagree"]
      ELSE IF o.fmt = "none" THEN [v |-> "mismatch", why |-> "no report"]
+     \* the index is go-yaml's for ITS error: when the command reports another error (go-yaml decides differently between one read and several
+     \* for a byte order mark inside a stream) the logged index says nothing about it
+     ELSE IF Has(rec.env, "msg") /\ Has(o, "msg") /\ o.msg # rec.env.msg THEN [v |-> "env_disagree"]
      ELSE LET p == rec.env.err.p
               \* go-yaml does not count a byte order mark at the very start of the stream (every later U+FEFF is a character like any other)
               bom == N >= 3 /\ ByteAt(t, 0) = 239 /\ ByteAt(t, 1) = 187 /\ ByteAt(t, 2) = 191
